@@ -130,6 +130,9 @@ func genSub(rng *simrt.Rand, u *gen.Universe, prop string) Sub {
 		s.UpdatesOnly = rng.Chance(0.2)
 	}
 	s.Delay = rng.Intn(40)
+	if rng.Chance(0.3) {
+		s.Delay = rng.Intn(300) // joins while the targets' streams are well under way
+	}
 	np := 1 + rng.Pick(6, 3, 1)
 	if prop == "C06" {
 		np = 1 + rng.Intn(4)
@@ -248,6 +251,28 @@ func (H) Generate(rng *simrt.Rand, prop, tier string) (any, simrt.Config) {
 		sc.Stats = true
 	}
 	sc.NoDup = rng.Chance(0.1)
+	// Target churn: spare targets without data that are removed and re-added
+	// over and over (a collector whose configuration is being edited) while
+	// an all-targets subscriber walks the cache.
+	if prop != "C12" && prop != "C07" && (prop == "C05" && rng.Chance(0.35) || rng.Chance(0.08)) {
+		for k := 1 + rng.Intn(2); k > 0; k-- {
+			name := fmt.Sprintf("a-spare%d", k)
+			if rng.Chance(0.5) {
+				name = fmt.Sprintf("z-spare%d", k)
+			}
+			var ops []cacheh.Op
+			for i := 2 + rng.Intn(6); i > 0; i-- {
+				ops = append(ops, cacheh.Op{K: "remove"}, cacheh.Op{K: "add"})
+			}
+			sc.Targets = append(sc.Targets, name)
+			sc.Streams = append(sc.Streams, ops)
+			sc.Preload = append(sc.Preload, nil)
+		}
+		sc.Subs[0].Target = "*"
+		if sc.Subs[0].Mode == "poll" && sc.Subs[0].Polls == 0 {
+			sc.Subs[0].Polls = 1 + rng.Intn(3)
+		}
+	}
 	// Twin subscribers: the same query registered by two clients (the same
 	// node of the matcher), one of which often goes away.
 	if prop != "C12" && len(sc.Subs) >= 2 && rng.Chance(0.3) {
